@@ -305,6 +305,55 @@ func HarnessC12ReadOnly() {
 // the result's messages, without duplicates; every field-level error is named by an extension of the root path.
 func HarnessC17Composite() {
 	s, d := genMixedPair()
+	checkComposite(s, d)
+}
+
+// HarnessC17Important: the rejections that carry the internal "IMPORTANT!" tag (a forbidden member
+// called headers that holds a $ref), alone and below allOf / anyOf / oneOf / properties, where the
+// tagged message and its stripped copy travel together.
+func HarnessC17Important() {
+	inner := spec.Schema{}
+	inner.AdditionalProperties = &spec.SchemaOrBool{Allows: false}
+	inner.Properties = map[string]spec.Schema{"ok": {}}
+	s := &spec.Schema{}
+	wrapped := false
+	switch verifChoose(6) {
+	case 0:
+		s = &inner
+	case 1:
+		s.AllOf = []spec.Schema{inner}
+	case 2:
+		s.AnyOf = []spec.Schema{inner, strSchema("", 1)}
+	case 3:
+		s.OneOf = []spec.Schema{inner, strSchema("", 1)}
+	case 4:
+		s.AllOf = []spec.Schema{{}, inner}
+		s.AdditionalProperties = &spec.SchemaOrBool{Allows: false}
+	default:
+		s.Properties = map[string]spec.Schema{"w": inner}
+		wrapped = true
+	}
+	var hv interface{}
+	switch verifChoose(5) {
+	case 0:
+		hv = map[string]interface{}{"X": map[string]interface{}{"$ref": "#/definitions/h"}}
+	case 1:
+		hv = map[string]interface{}{"X": map[string]interface{}{"$ref": "#/a"}, "Y": map[string]interface{}{"$ref": "#/a"}}
+	case 2:
+		hv = map[string]interface{}{"X": map[string]interface{}{"$ref": 1.0}, "Y": nil}
+	case 3:
+		hv = map[string]interface{}{"X": map[string]interface{}{"type": "string"}}
+	default:
+		hv = "x"
+	}
+	var d interface{} = map[string]interface{}{"headers": hv, "ok": 1.0}
+	if wrapped {
+		d = map[string]interface{}{"w": d}
+	}
+	checkComposite(s, d)
+}
+
+func checkComposite(s *spec.Schema, d interface{}) {
 	reg := &verifRegistry{}
 	res := NewSchemaValidator(s, nil, "", reg).Validate(d)
 	err := AgainstSchema(s, d, reg)
